@@ -13,6 +13,7 @@ import (
 	"github.com/gopcua/opcua/ua"
 	"pgregory.net/rapid"
 
+	"verif/pkg/ev"
 	"verif/pkg/gen"
 	"verif/pkg/hostile"
 )
@@ -260,6 +261,12 @@ var targeted = map[string]func(g gctx) (ua.Request, string){
 		if n > 10000 {
 			n = 10000
 		}
+		if n > 1000 && ev.HasOpen("C29", "KF-C29-3") {
+			// listed finding: a Browse of 10^4 nodes keeps the only dispatcher busy
+			// for seconds; the class is excluded by construction while it is open
+			rec.Excluded("KF-C29-3")
+			n = 1000
+		}
 		r := &ua.BrowseRequest{RequestedMaxReferencesPerNode: g.u32(), NodesToBrowse: repeat(g, n, func() *ua.BrowseDescription {
 			return &ua.BrowseDescription{NodeID: g.node(), BrowseDirection: ua.BrowseDirection(rapid.SampledFrom([]uint32{0, 1, 2, 3, 99}).Draw(g.t, "dir")),
 				ReferenceTypeID: rapid.SampledFrom(refTypes).Draw(g.t, "refType"), IncludeSubtypes: rapid.Bool().Draw(g.t, "subtypes"),
@@ -420,7 +427,7 @@ func inflate(v any, n int) {
 	}
 }
 
-var tokenKinds = []string{"valid", "valid", "valid", "null", "unknown", "other", "other", "unknown-string", "unknown-guid", "unknown-opaque"}
+var tokenKinds = []string{"valid", "valid", "valid", "valid", "valid", "valid", "valid", "valid", "null", "unknown", "other", "other", "other", "unknown-string", "unknown-guid", "unknown-opaque"}
 
 // genRequest draws one request step for connection conn.
 func genRequest(t *rapid.T, conn, nconn int) (stepT, bool) {
@@ -546,7 +553,7 @@ func genRaw(t *rapid.T, conn int) stepT {
 
 type stormT struct {
 	N      int      `json:"n"`
-	Stages []string `json:"stages"` // cycled over the N connections
+	Stages []string `json:"stages"`  // cycled over the N connections
 	Hold   int      `json:"hold_ms"` // "hold": keep a silent connection open this long
 }
 
@@ -559,7 +566,7 @@ func genStorm(t *rapid.T) stepT {
 		s.Stages = append(s.Stages, rapid.SampledFrom(stormStages).Draw(t, "stage"))
 	}
 	desc := "abort"
-	if rapid.IntRange(0, 11).Draw(t, "hold") == 0 {
+	if rapid.IntRange(0, 19).Draw(t, "hold") == 0 {
 		// a client that connects and then says nothing for a while
 		s.Hold = 2600
 		s.N = rapid.SampledFrom([]int{1, 3}).Draw(t, "holdN")
